@@ -58,7 +58,8 @@ Ltac brk :=
   repeat (cbn; match goal with
          | |- context[if ?b then _ else _] =>
              match b with context[?v] => is_var v; match type of v with bool => destruct v end end
-         | |- context[B ?v] => is_var v; destruct v
+         | |- context[B ?b] =>
+             match b with context[?v] => is_var v; match type of v with bool => destruct v end end
          | |- context[match ?p with PNone => _ | PHs => _ | PConn => _ end] => is_var p; destruct p
          end).
 Ltac row_tac := intros [c p i e h dl bf xi xp f pe ui uu ur di du dr dn px tu td uc dc rq cu ps pc phh t cl];
